@@ -107,7 +107,9 @@ theorem det3m_eq (A : M3 ℝ) : det3m A = det3 A := by
 theorem cross_eq (u v : V3 ℝ) :
     cross u v = ⟨u.y * v.z - u.z * v.y, u.z * v.x - u.x * v.z, u.x * v.y - u.y * v.x⟩ := by
   unfold cross Gen.cross
-  rfl
+  first
+  | rfl
+  | (simp only [V3.mk.injEq]; exact ⟨by ring, by ring, by ring⟩)
 
 theorem mulVec3_cross01 (S : M3 ℝ) :
     mulVec3 S (cross (row0 S) (row1 S)) = ⟨0, 0, det3 S⟩ := by
